@@ -8,6 +8,7 @@
 -/
 import BioCantor.Proofs.PointMaps
 import BioCantor.Proofs.RelInterval
+import BioCantor.Proofs.RelativeTo
 namespace BioCantor.Props.C01
 open BioCantor BioCantor.Spec BioCantor.Model BioCantor.Proofs
 
@@ -31,6 +32,14 @@ theorem r2p_inverts_p2r (l : Location) (h : WF l) (p r : Int) (hp : p2r l p = .o
 theorem relint_spec (l : Location) (h : WF l) (rs re : Int) (rst : Strand) :
     okRelint l rs re rst (ans (relInterval l rs re rst)) = true :=
   relInterval_ok l h rs re rst
+
+/-- T4: `a.location_relative_to(b)` (= `b.parent_to_relative_location(a)`): refused exactly when the
+    operands share no position; for non-self-overlapping operands and directional `b` the answer covers
+    exactly the relative positions (in `b`) of the shared parent positions, has `a`'s strand relative to
+    `b`'s, is well formed, and is normalised when `optimize_blocks`. -/
+theorem locrel_spec (a b : Location) (ha : WF a) (hb : WF b) (opt : Bool) :
+    okLocRel a b opt (ans (locationRelativeTo a b opt)) = true :=
+  locationRelativeTo_ok a b ha hb opt
 
 -- non-vacuity: a minus-strand layout with a zero-length block, a 0-bp gap and a nested block is WF
 example : WF (.compound ⟨[(0, 5), (2, 3), (5, 9), (5, 5)], .minus⟩) := by decide
